@@ -1821,7 +1821,9 @@ class RawAlgorithmsMixIn:
             cls._qr_rectangular(A1_data, out = (Q_data, R1_data), epsilon = epsilon)
             # print 'QR1 - A1 = ', cls._dot(Q_data, R1_data, numpy.zeros_like(A_data[:,:,:,:M])) - A_data[:,:,:,:M]
             # print 'R2_data=',R2_data
-            cls._dot(cls._transpose(Q_data), A2_data, out=R2_data)
+            # (a fresh result: _dot clears its out array first, which is A2
+            # itself in the in-place form out = (Q, A))
+            R2_data[...] = cls._dot(cls._transpose(Q_data), A2_data, numpy.zeros_like(R2_data))
             # print 'R2_data=',R2_data
 
 
